@@ -384,10 +384,20 @@ func runSchedule(o *out.Out, r *gen.Rand, data []byte, partSize uint32, full *ty
 		// --- direct oracles
 		if added {
 			// an accepted part carries exactly the bytes that belong at its index under this header
-			// (with a wrong total in the header the left-most parts of the tree still verify: the root
-			// does not commit to the leaf count; such a set can never complete, checked below)
-			if hdrKind == 3 || idx >= total || !bytes.Equal(q.Bytes, chunk(data, partSize, idx)) {
-				o.Fail(step, "bogus-part-accepted", fmt.Sprintf("%s part accepted at index %d (total %d): bytes are not chunk %d of the data", label, idx, total, idx))
+			okBytes := idx < total && bytes.Equal(q.Bytes, chunk(data, partSize, idx))
+			if hdrKind == 1 || hdrKind == 2 {
+				// a header with the genuine hash but a wrong total: the root does not commit to the leaf count,
+				// so some genuine leaves still verify (possibly at a shifted index); such a set can never
+				// complete (checked at the end) and whatever it accepts must at least be a leaf of the tree
+				okBytes = false
+				for j := 0; j < total; j++ {
+					if bytes.Equal(q.Bytes, chunk(data, partSize, j)) {
+						okBytes = true
+					}
+				}
+			}
+			if hdrKind == 3 || !okBytes {
+				o.Fail(step, "bogus-part-accepted", fmt.Sprintf("%s part accepted at index %d (total %d, header kind %d): bytes are not chunk %d of the data", label, idx, total, hdrKind, idx))
 			}
 			if err != nil {
 				o.Fail(step, "added-with-error", label)
